@@ -183,6 +183,10 @@ def main(tier='quick'):
         raise Machinery('StorageDir.tla fails TLC: %s %s' % (mc.violated, mc.errors[:2]))
     work = tempfile.mkdtemp(prefix='c15_')
     cases, metas = [], []
+    from . import lifetap
+    nets = []
+    tap = lifetap.LifeTap()
+    tap.__enter__()
     try:
         n_cfg = 6 if tier == 'quick' else 60
         n_err = 0
@@ -215,6 +219,7 @@ def main(tier='quick'):
             cl = ae_mod.ClientAE('CL', supported_ts=[ts], max_pdu_length=max_a).add_scu(sc.storage_scu, [CT])
             cl.timeout = 120
             with R.Net() as net:
+                nets.append(net)
                 net.register(ADDR, srv)
                 repeat_uid = '1.2.3.77.%d' % ci
                 small = (max_b and max_b < 200) or (max_a and max_a < 300)
@@ -259,6 +264,7 @@ def main(tier='quick'):
                 cl_b = ae_mod.ClientAE('CLB', supported_ts=[ts2], max_pdu_length=16384).add_scu(sc.storage_scu, [CT])
                 cl_a.timeout = cl_b.timeout = 60
                 with R.Net() as net:
+                    nets.append(net)
                     net.register(ADDR, srv2)
                     ds = make_dataset(rng, 300, None)
                     obs, err, herr = one_store(net, srv2, handler2, cl_a, ds, ts, False, work, rng, False, sdir, other=cl_b)
@@ -273,7 +279,18 @@ def main(tier='quick'):
                     metas.append(meta)
         # a loopback TCP sample on an ephemeral port (the repository's own tests use a fixed port)
     finally:
+        tap.__exit__(None, None, None)
         shutil.rmtree(work, ignore_errors=True)
+    # every association that carried a store, as a whole: a behaviour of the life-cycle model (AssocLife.tla)
+    obs = [o for n in nets for o in tap.cases(n) if o['library_acceptor']]
+    lres, lstats = lifetap.validate(obs)
+    for o, r in zip(obs, lres):
+        if not r[0]:
+            v.report({'site': 'whole-stack', 'clause': 'association-is-a-behaviour-of-the-life-cycle-model', 'why': (r[1] or ['unexplained'])[0]},
+                     '%s (matched %d of %d): requesting thread %s | accepting thread %s | requestor wrote %s | acceptor wrote %s' % (
+                         ', '.join(r[1]) or 'no behaviour of AssocLife explains the observation', r[2], r[3],
+                         [(e['ev'], e.get('res'), e.get('f'), e.get('r')) for e in o['rq']][:30], [(e['ev'], e.get('res'), e.get('f'), e.get('r')) for e in o['ac']][:30],
+                         [(x['k'], x['f']) for x in o['r2a']][:30], [(x['k'], x['f']) for x in o['a2r']][:30]))
     res, stats = tlc.validate_traces('Trace_EndToEnd', 'Trace_EndToEnd.cfg', [[c] for c in cases], chunk=5000)
     for c, meta, r in zip(cases, metas, res):
         if r['reached'] != 1:
@@ -284,7 +301,8 @@ def main(tier='quick'):
                          clause, meta, c['sent'], c['got'], c['handlerStatus'], c['scuStatus'],
                          [x['name'][-24:] for x in c['before']], [x['name'][-24:] for x in c['after']]), replay=meta)
     ev = {'tier': tier, 'level': 'model_checking',
-          'coverage': {'states': mc.distinct, 'transitions': mc.generated, 'traces_validated_against_impl': len(cases),
+          'coverage': {'states': mc.distinct, 'transitions': mc.generated, 'traces_validated_against_impl': len(cases) + len(obs),
+                       'associations_validated_against_AssocLife': len(obs), 'life_cycle_validation_states': lstats['states'],
                        'associations': len(cases), 'configurations': n_cfg,
                        'samples': [dict(metas[1], observation={k: cases[1][k] for k in ('sent', 'got', 'scuStatus', 'pdataA2B')})], 'exhaustive': False},
           'assumptions': ['file-backed reception (storage_scp is a store_in_file service): temporary file (AE) or storage directory (StorageAE)',
